@@ -305,19 +305,7 @@ func (w *world) newService(ns, name string) *v1.Service {
 	w.genLabels(svc)
 	w.genRequest(svc)
 	w.genPoolAnn(svc)
-	if w.k.avoidKnown {
-		// the class is a function of the name, so a re-created service keeps it (listed finding)
-		if idx%3 == 0 {
-			cls := "other"
-			if w.k.lbClass == "" && idx%2 == 0 {
-				cls = "metallb"
-			}
-			svc.Spec.LoadBalancerClass = &cls
-		} else if w.k.lbClass != "" {
-			cls := w.k.lbClass
-			svc.Spec.LoadBalancerClass = &cls
-		}
-	} else if w.k.lbClass != "" || w.pick(16, "lbclass") == 0 {
+	if w.k.lbClass != "" || w.pick(16, "lbclass") == 0 {
 		cls := []string{"metallb", "other"}[w.pick(2, "lbclass value")]
 		if w.pick(4, "lbclass nil") != 0 {
 			svc.Spec.LoadBalancerClass = &cls
